@@ -18,6 +18,10 @@
 #include "initial_triangulation.hpp"
 #include "local_mesh_refiner.hpp"
 #include "custom_exception.hpp"
+#if __has_include("verif_hooks.hpp")
+#include "verif_hooks.hpp"       // hook H2 (fixes/H2-hook-seed.diff): fixed seed of the clock-seeded generators
+#define HAVE_HOOK_H2 1
+#endif
 
 using vproto::to_hex; using vproto::from_hex;
 
@@ -160,6 +164,13 @@ int main(){
         try{
             // ------------------------------------------------------------ mesh of the request
             if(w[0] == "cell"){ pos.clear(); polys.clear(); c.reset(); std::cout << "ok\n"; }
+            else if(w[0] == "seed" && w.size() == 2){
+                #ifdef HAVE_HOOK_H2
+                    simucell3d_verif::fixed_seed() = std::stoull(w[1]); std::cout << "ok\n";
+                #else
+                    std::cout << "nohook\n";
+                #endif
+            }
             else if(w[0] == "note"){ std::cout << "ok\n"; }      // annotation for the replay (what the following requests are)
             else if(w[0] == "n" && w.size() == 4){ for(int i = 1; i < 4; i++) pos.push_back(from_hex(w[i])); std::cout << "ok\n"; }
             else if(w[0] == "t" && w.size() >= 4){ std::vector<unsigned> f; for(size_t i = 1; i < w.size(); i++) f.push_back((unsigned) std::stoul(w[i])); polys.push_back(f); std::cout << "ok\n"; }
